@@ -419,6 +419,68 @@ func (c *Ctx) adp(which map[string]bool) {
 					}
 				}
 			}
+			// what is compared is the number that will be queued: the lists are
+			// not modified any more behind the comparison (gaps are dropped first)
+			fin := c.acc("ADP-5", ad, "pending-count-for-"+t.fld+"-taken-after-the-last-list-update")
+			lcAd := c.listClassesOf(ad)
+			for _, p := range paths {
+				if p.Start != ad.Blocks[0] {
+					continue
+				}
+				for i := range p.Events {
+					e := &p.Events[i]
+					if e.Kind != pathx.KAssume {
+						continue
+					}
+					cm, ok := cmpOf(e.Val, e.Truth)
+					if !ok || roleKey(cm.Y) != "Config."+t.fld || (cm.Op != token.LEQ && cm.Op != token.GTR) {
+						continue
+					}
+					cells := map[ssa.Value]bool{}
+					var walk func(v ssa.Value, d int)
+					walk = func(v ssa.Value, d int) {
+						if d > 6 {
+							return
+						}
+						switch x := stripConv(v).(type) {
+						case *ssa.BinOp:
+							walk(x.X, d+1)
+							walk(x.Y, d+1)
+						case *ssa.Call:
+							if arg, isLen := builtinCall(x, "len"); isLen && isUintList(arg.Type()) {
+								cells[lcAd.find(arg)] = true
+							}
+						}
+					}
+					walk(cm.X, 0)
+					if len(cells) == 0 {
+						continue
+					}
+					late := -1
+					for j := i + 1; j < len(p.Events); j++ {
+						s := &p.Events[j]
+						switch s.Kind {
+						case pathx.KStore:
+							if _, isCell := s.Addr.(*ssa.Alloc); isCell && isUintList(s.Addr.Type()) && cells[lcAd.find(s.Addr)] {
+								late = j
+							}
+						case pathx.KCall:
+							if s.Fn != ad || s.Call == nil || len(s.Call.Args) == 0 || !isUintList(s.Call.Args[0].Type()) || !cells[lcAd.find(s.Call.Args[0])] {
+								continue
+							}
+							if call, isCall := s.Instr.(*ssa.Call); isCall && isUintList(call.Type()) {
+								late = j // the list is rebuilt: append or a list-in/list-out helper such as cleanSequence
+							}
+						}
+					}
+					if late < 0 {
+						fin.pass()
+					} else {
+						fin.fail(p, late, "a pending list is still modified after its length was compared with Config.%s: records that are dropped for a gap further down count against the limit, and a session that fits is refused (or one that does not fit is admitted)", t.fld)
+					}
+				}
+			}
+			fin.done(1, "no list in the comparison is stored to afterwards")
 			// the fatal return honours negative = default
 			for _, p := range paths {
 				if p.End != pathx.KReturn || retErr(p, len(p.Events)-1) == triNil {
@@ -625,9 +687,9 @@ func (c *Ctx) adp(which map[string]bool) {
 		}
 		// adjacency test: n-p == 1 || n == 0 && p == mask
 		adj := false
-		for _, b := range clean.Blocks {
+		for _, b := range c.regionBlocks(clean) {
 			for _, ins := range b.Instrs {
-				if bo, ok := ins.(*ssa.BinOp); ok && bo.Op == token.EQL && isK(bo.Y, 1) {
+				if bo, ok := ins.(*ssa.BinOp); ok && (bo.Op == token.EQL || bo.Op == token.NEQ) && isK(bo.Y, 1) {
 					if sub, ok := stripConv(bo.X).(*ssa.BinOp); ok && sub.Op == token.SUB {
 						adj = true
 					}
@@ -641,7 +703,7 @@ func (c *Ctx) adp(which map[string]bool) {
 		}
 		// the PUBREL→PUBLISH continuity test of AdoptSession is the same predicate
 		pred := func(fn *ssa.Function) (sub1, zero, mask bool) {
-			for _, b := range fn.Blocks {
+			for _, b := range c.regionBlocks(fn) {
 				for _, ins := range b.Instrs {
 					bo, ok := ins.(*ssa.BinOp)
 					if !ok || (bo.Op != token.EQL && bo.Op != token.NEQ) {
@@ -650,7 +712,15 @@ func (c *Ctx) adp(which map[string]bool) {
 					if s, ok := stripConv(bo.X).(*ssa.BinOp); ok && s.Op == token.SUB && isK(bo.Y, 1) {
 						sub1 = true
 					}
+					// an identifier: masked in place, or handed to a helper introduced later
+					ident := false
 					if and, ok := stripConv(bo.X).(*ssa.BinOp); ok && and.Op == token.AND && isK(and.Y, pm) {
+						ident = true
+					}
+					if pr, ok := stripConv(bo.X).(*ssa.Parameter); ok && pr.Type().String() == "uint" && c.isNewHelper(pr.Parent()) {
+						ident = true
+					}
+					if ident {
 						if isK(bo.Y, 0) {
 							zero = true
 						}
